@@ -231,7 +231,8 @@ def run_case(case):
             ax = 1 if ctx is not None else 0
             chunks = [s.narrow(ax, k * bs, bs) for k in range(n // bs)]
             for k in range(1, len(chunks)):
-                if torch.equal(chunks[0], chunks[k]) and float(chunks[0].std() if chunks[0].numel() > 1 else 1.0) > 0:
+                if torch.equal(chunks[0], chunks[k]) and float(chunks[0].std() if chunks[0].numel() > 1 else 1.0) > 0 and \
+                        bool(torch.isfinite(chunks[0]).all()) and float(chunks[0].abs().max()) < 1e30:     # (two draws overflowing to inf are equal)
                     res.fail("duplicate_draws", site, "sample(%d, batch_size=%d): batch %d is identical to batch 0 (batches are not independent draws)" % (n, bs, k),
                              bs=case["bs"])
                     return res
